@@ -176,14 +176,30 @@ def b_strata(tier):
     return out
 
 
+def c_strata(tier):
+    """the stepper strata again, on extreme domain extents (weak-linear-part and moderate stiffness only)"""
+    out = []
+    for j, s_ in enumerate(x for x in b_strata("thorough") if x["stiff"] in ("tiny", "moderate") and x["order"] in (1, 2, 4)):
+        if tier == "quick" and j % 24 != (0 if s_["stiff"] == "tiny" else 13):
+            continue
+        out.append(dict(s_, id=s_["id"] + "-extremeL", extreme_L=True))
+    return out
+
+
 def b_strategy(stratum, tier):
     f, D, N = stratum["fam"], stratum["D"], stratum["N"]
     zr = {"tiny": (1e-9, 1e-3), "moderate": (1e-2, 1e2), "stiff": (1e3, 1e12)}[stratum["stiff"]]
+    if stratum.get("extreme_L"):
+        # very large / very small boxes: wavenumber scales 2*pi/L far from one (precision-dependent thresholds,
+        # (2 pi/L)^2 k^2 below float32 eps, overflow of kappa^4 in float32, ...)
+        L = st.one_of(gens.log_floats(3e3, 1e7), gens.log_floats(3e3, 1e7), gens.log_floats(1e-3, 0.3))
+    else:
+        L = st.one_of(gens.st_L(0.5, 30.0), gens.st_L(0.5, 30.0), gens.log_floats(1e-2, 1e6))
     return st.fixed_dictionaries(
         dict(
             fam=st.just(f),
             stiff=st.just(stratum["stiff"]),
-            spec=configs.st_spec(f, D, N, orders=(stratum["order"],), dt=st.just(1.0), contour=True),
+            spec=configs.st_spec(f, D, N, orders=(stratum["order"],), dt=st.just(1.0), contour=True, L=L),
             Z=gens.log_floats(*zr),
             seed=gens.st_seed(),
             amp=st.floats(0.1, 2.0).map(lambda x: float("%.3g" % x)),
@@ -374,4 +390,5 @@ def b_check(case):
 SUBS = [
     Sub("integrator_stiffness", a_check, strata=a_strata, strategy=a_strategy, n=(6, 40)),
     Sub("stepper_precision", b_check, strata=b_strata, strategy=b_strategy, n=(1, 2)),
+    Sub("extreme_domain_precision", b_check, strata=c_strata, strategy=b_strategy, n=(2, 3)),
 ]
